@@ -179,8 +179,22 @@ class TruncQ(EffectsQ):
                 "trusted: the kernel maps the file's bytes at the new length, set_len grows with zeros")
 
 
+class CreateQ(EffectsQ):
+    """effects mode over the file-backed (new file) and anonymous-map constructors and Options::data_offset_in: obligations L0-L2 of C16"""
+    name, props = "effects_create_path", ["C16"]
+    module, native_flag, min_obligations = "mirsmt.create", "--create-check", 3
+    cross_check = True
+
+    def bounds(self):
+        return ("all paths of Memory::map_mut_in with create_new = true, of Memory::map_anon and of Options::data_offset_in (no loops in them); reserved <= 2^20; "
+                "callees outside the crate opaque (fresh symbolic result + effect record), write_sanity summarised (its byte layout is decided by Engine K under C09), "
+                "size_of::<Header>() = 24; cleanup (unwinding) paths not followed")
+
+
 def select(pid, tier, only=None):
     out = []
+    if pid in CreateQ.props and (not only or only in CreateQ.name):
+        out.append(CreateQ())
     if pid in TruncQ.props and (not only or only in TruncQ.name):
         out.append(TruncQ())
     if pid == "C09" and (not only or only in EffectsQ.name):
